@@ -37,6 +37,87 @@ ASSUMPTIONS = ["Graph.extend moves a node that is already in the graph to the en
 CORE = "onnx_ir._core"
 
 
+def _edge_loops(repo, f, depth=0):
+    """[(function, loop over <x>.inputs, edge-recording node, offending control node | None)] for f and, when f gathers its
+    edges through a helper method (`for p in node.predecessors()`), for that helper."""
+    out = []
+    funcs = [f] + list(f.nested.values())
+    for fn in funcs:
+        for lp in (x for x in own_nodes(fn.node) if isinstance(x, ast.For)):
+            it = lp.iter
+            # edges gathered by a helper: for p in <node>.<helper>()
+            if isinstance(it, ast.Call) and isinstance(it.func, ast.Attribute) and not it.args and depth < 2 and isinstance(lp.target, ast.Name):
+                used = any(isinstance(c, ast.Call) and any(isinstance(a, ast.Name) and a.id == lp.target.id for a in c.args) for b in lp.body for c in ast.walk(b))
+                helper = repo.cls(f"{CORE}:Node").methods.get(it.func.attr)
+                if used and helper is not None and any(isinstance(c, ast.Call) and isinstance(c.func, ast.Attribute) and c.func.attr == "producer" for c in ast.walk(helper.node)):
+                    out += _edge_loops(repo, helper, depth + 1)
+                continue
+            if not (isinstance(lp.target, ast.Name) and isinstance(it, ast.Attribute) and it.attr == "inputs"):
+                continue
+            v = lp.target.id
+            prod_names = {a.targets[0].id for a in ast.walk(lp) if isinstance(a, ast.Assign) and isinstance(a.targets[0], ast.Name)
+                          and any(isinstance(c, ast.Call) and isinstance(c.func, ast.Attribute) and c.func.attr == "producer" for c in ast.walk(a.value))}
+            prod_names |= {x.target.id for x in ast.walk(lp) if isinstance(x, ast.NamedExpr) and isinstance(x.target, ast.Name)
+                           and any(isinstance(c, ast.Call) and isinstance(c.func, ast.Attribute) and c.func.attr == "producer" for c in ast.walk(x.value))}
+
+            def mentions_producer(e):
+                return any((isinstance(a, ast.Name) and a.id in prod_names) or (
+                    isinstance(a, ast.Call) and isinstance(a.func, ast.Attribute) and a.func.attr == "producer") for a in ast.walk(e))
+
+            edge = [c for c in ast.walk(lp) if isinstance(c, ast.Call) and not (isinstance(c.func, ast.Attribute) and c.func.attr == "producer")
+                    and any(mentions_producer(a) for a in c.args)]
+            # … or a store keyed by / of the producer (helper building the predecessor collection)
+            edge += [st for b in lp.body for st in ast.walk(b) if isinstance(st, ast.Assign) and any(
+                isinstance(t, ast.Subscript) and mentions_producer(t.slice) for t in st.targets)]
+            if not edge:
+                continue
+            ec = edge[0]
+
+            def none_test(t, positive):
+                # `<v> is None` / `<producer> is None` (positive) or `… is not None` (negative)
+                if isinstance(t, ast.Compare) and len(t.ops) == 1 and isinstance(t.comparators[0], ast.Constant) and t.comparators[0].value is None \
+                        and isinstance(t.ops[0], ast.Is if positive else ast.IsNot):
+                    left = t.left.target if isinstance(t.left, ast.NamedExpr) else t.left
+                    return isinstance(left, ast.Name) and (left.id == v or left.id in prod_names)
+                return False
+
+            def all_none_tests(t, positive):
+                if isinstance(t, ast.BoolOp) and isinstance(t.op, ast.And if not positive else ast.Or):
+                    return all(none_test(x, positive) for x in t.values)
+                return none_test(t, positive)
+
+            outer = getattr(lp, "_parent", None)
+            per_node = set()
+            if isinstance(outer, ast.For) and lp in outer.body:
+                for st in outer.body[: outer.body.index(lp)]:
+                    if isinstance(st, (ast.Assign, ast.AnnAssign)) and getattr(st, "value", None) is not None:
+                        for t in st.targets if isinstance(st, ast.Assign) else [st.target]:
+                            if isinstance(t, ast.Name):
+                                per_node.add(t.id)
+
+            def per_node_memo_test(t):
+                names = {x.id for x in ast.walk(t) if isinstance(x, ast.Name)} - {v} - prod_names
+                return bool(names) and names <= per_node
+
+            bad = None
+            child, par = ec, getattr(ec, "_parent", None)
+            while par is not None and par is not lp:
+                if isinstance(par, ast.If):
+                    in_body = any(child is x for x in par.body) or any(child is y for x in par.body for y in ast.walk(x))
+                    if not ((in_body and all_none_tests(par.test, False)) or (not in_body and all_none_tests(par.test, True)) or per_node_memo_test(par.test)):
+                        bad = par
+                child, par = par, getattr(par, "_parent", None)
+            pos = (ec.lineno, ec.col_offset)
+            for x in ast.walk(lp):
+                if isinstance(x, (ast.Continue, ast.Break, ast.Return)) and (x.lineno, x.col_offset) < pos:
+                    g = getattr(x, "_parent", None)
+                    # only `continue` skips one input; break/return abandon the remaining inputs whatever the test
+                    if not (isinstance(x, ast.Continue) and isinstance(g, ast.If) and x in g.body and (all_none_tests(g.test, True) or per_node_memo_test(g.test))):
+                        bad = bad or g or x
+            out.append((fn, lp, ec, bad))
+    return out
+
+
 def run(ctx):
     ef = ctx._shared.get("effects")
     if ef is None:
@@ -122,59 +203,12 @@ def run(ctx):
               "functions (or the main graph) are left unsorted by the pass", how="sort calls on model.graph and in a loop over model.functions")
     # R4
     n_edges = 0
-    for lp in (x for x in own_nodes(f.node) if isinstance(x, ast.For) and isinstance(x.target, ast.Name)
-               and isinstance(x.iter, ast.Attribute) and x.iter.attr == "inputs"):
-        v = lp.target.id
-        prod_names = {a.targets[0].id for a in ast.walk(lp) if isinstance(a, ast.Assign) and isinstance(a.targets[0], ast.Name)
-                      and any(isinstance(c, ast.Call) and isinstance(c.func, ast.Attribute) and c.func.attr == "producer" for c in ast.walk(a.value))}
-        edge_calls = [c for c in ast.walk(lp) if isinstance(c, ast.Call) and not (isinstance(c.func, ast.Attribute) and c.func.attr == "producer")
-                      and any((isinstance(a, ast.Name) and a.id in prod_names) or any(
-                          isinstance(y, ast.Call) and isinstance(y.func, ast.Attribute) and y.func.attr == "producer" for y in ast.walk(a)) for a in c.args)]
-        if not edge_calls:
-            continue
-        ec = edge_calls[0]
+    for g, lp, ec, bad in _edge_loops(repo, f):
         n_edges += 1
-
-        def none_test(t, positive):
-            # `<v> is None` (positive) / `<v> is not None` (negative)
-            return isinstance(t, ast.Compare) and len(t.ops) == 1 and isinstance(t.left, ast.Name) and t.left.id == v \
-                and isinstance(t.comparators[0], ast.Constant) and t.comparators[0].value is None \
-                and isinstance(t.ops[0], ast.Is if positive else ast.IsNot)
-
-        # a per-node memo (re-created for every node before its inputs are scanned) may drop repeated edges of that node
-        outer = getattr(lp, "_parent", None)
-        per_node = set()
-        if isinstance(outer, ast.For) and lp in outer.body:
-            for st in outer.body[: outer.body.index(lp)]:
-                if isinstance(st, (ast.Assign, ast.AnnAssign)) and getattr(st, "value", None) is not None:
-                    for t in st.targets if isinstance(st, ast.Assign) else [st.target]:
-                        if isinstance(t, ast.Name):
-                            per_node.add(t.id)
-
-        def per_node_memo_test(t):
-            names = {x.id for x in ast.walk(t) if isinstance(x, ast.Name)} - {v} - prod_names
-            return bool(names) and names <= per_node
-
-        bad = None
-        # conditions controlling the edge call inside the loop
-        child, par = ec, getattr(ec, "_parent", None)
-        while par is not None and par is not lp:
-            if isinstance(par, ast.If):
-                in_body = any(child is x for x in par.body) or any(child is y for x in par.body for y in ast.walk(x))
-                if not ((in_body and none_test(par.test, False)) or (not in_body and none_test(par.test, True)) or per_node_memo_test(par.test)):
-                    bad = par
-            child, par = par, getattr(par, "_parent", None)
-        # exits of the iteration before the edge call
-        pos = (ec.lineno, ec.col_offset)
-        for x in ast.walk(lp):
-            if isinstance(x, (ast.Continue, ast.Break, ast.Return)) and (x.lineno, x.col_offset) < pos:
-                g = getattr(x, "_parent", None)
-                if not (isinstance(g, ast.If) and x in g.body and (none_test(g.test, True) or per_node_memo_test(g.test))):
-                    bad = bad or g or x
-        ctx.check("R4", f"Graph.sort: {norm(ec)[:60]} is recorded for every non-None input", bad is None, f, bad if bad is not None else ec,
+        ctx.check("R4", f"{g.local}: {norm(ec)[:60]} is recorded for every non-None input", bad is None, g, bad if bad is not None else ec,
                   f"the dependency edge from an input's producer is recorded only when `{norm(bad.test) if isinstance(bad, ast.If) else norm(bad) if bad is not None else ''}` "
                   "allows it: a skipped edge lets the sort place a consumer before its producer",
-                  how="control conditions of the edge-recording call inside the loop over node.inputs; exits before it",
+                  how="control conditions of the edge-recording statement inside the loop over node.inputs (in sort or in the helper it iterates); exits before it",
                   construct="producer edge recorded conditionally")
     ctx.require(n_edges >= 1, "Graph.sort: loop recording the producers of node.inputs not found")
     # R5
@@ -196,14 +230,19 @@ def run(ctx):
     for g in scope_funcs:
         prod = {a.targets[0].id for a in own_nodes(g.node) if isinstance(a, ast.Assign) and isinstance(a.targets[0], ast.Name)
                 and any(isinstance(c, ast.Call) and isinstance(c.func, ast.Attribute) and c.func.attr == "producer" for c in ast.walk(a.value))}
+        # loop variables over a node's predecessors() are producers as well
+        prod |= {x.target.id for x in own_nodes(g.node) if isinstance(x, ast.For) and isinstance(x.target, ast.Name) and isinstance(x.iter, ast.Call)
+                 and isinstance(x.iter.func, ast.Attribute) and x.iter.func.attr == "predecessors"}
         # parameters of nested helpers that receive a producer
         if g.parent is not None:
+            outer_loop_prod = {x.target.id for x in own_nodes(g.parent.node) if isinstance(x, ast.For) and isinstance(x.target, ast.Name) and isinstance(x.iter, ast.Call)
+                               and isinstance(x.iter.func, ast.Attribute) and x.iter.func.attr == "predecessors"}
             outer_prod = {a.targets[0].id for a in own_nodes(g.parent.node) if isinstance(a, ast.Assign) and isinstance(a.targets[0], ast.Name)
                           and any(isinstance(c, ast.Call) and isinstance(c.func, ast.Attribute) and c.func.attr == "producer" for c in ast.walk(a.value))}
             for c in calls_in(g.parent):
                 if isinstance(c.func, ast.Name) and c.func.id == g.name:
                     for i, arg in enumerate(c.args):
-                        if isinstance(arg, ast.Name) and arg.id in outer_prod and i < len(g.params):
+                        if isinstance(arg, ast.Name) and (arg.id in outer_prod or arg.id in outer_loop_prod) and i < len(g.params):
                             prod.add(g.params[i])
         if not prod:
             continue
